@@ -111,6 +111,8 @@ func (s Settings) Apply() func() {
 	zerolog.ErrorMarshalFunc = errorMarshal
 	style := s
 	zerolog.LevelFieldMarshalFunc = func(l zerolog.Level) string { return style.levelText(l) }
+	// the frame a caller hook reports is C19's subject; here only whether / where the field appears
+	zerolog.CallerMarshalFunc = func(pc uintptr, file string, line int) string { CallerRuns++; return CallerText }
 	if s.StackMarshaler {
 		zerolog.ErrorStackMarshaler = stackMarshal
 	} else {
@@ -128,8 +130,14 @@ func (s Settings) Apply() func() {
 		zerolog.ErrorStackMarshaler = nil
 		zerolog.LevelFieldMarshalFunc = func(l zerolog.Level) string { return l.String() }
 		zerolog.TimestampFunc = time.Now
+		zerolog.CallerMarshalFunc = func(pc uintptr, file string, line int) string { return file + ":" + strconv.Itoa(line) }
 	}
 }
+
+// CallerText is what the harness's CallerMarshalFunc answers; CallerRuns counts its invocations.
+const CallerText = "src.go:42"
+
+var CallerRuns int
 
 // ---------------------------------------------------------------- primitive values
 // A Prim is one call of a regular method: M is the method name on Event /
@@ -339,6 +347,40 @@ var byteClasses = [][]byte{
 
 // ByteClasses: the byte sequences strings are generated from (for directed sweeps)
 func ByteClasses() [][]byte { return byteClasses }
+
+// EscapeLookalikes: texts that are themselves the output of a JSON / string encoder (a logged request body,
+// a Windows path, a regular expression): a backslash followed by what would be an escape if it were read
+// at the wrong level.  They are data like any other text and must come back unchanged.
+func EscapeLookalikes() [][]byte {
+	var out [][]byte
+	for _, s := range []string{`\u003c`, `\u003e`, `\u0026`, `\u2028`, `\u2029`, `\u0000`, `\u000a`, `\ufffd`, `\ud834\udd1e`, `\u00`, `\u`, `\n`, `\"`, `\\`, `\/`, `\`,
+		`&lt;`, `&amp;`, `%3c`, "\u2028", "\u2029"} {
+		out = append(out, []byte(s))
+	}
+	return out
+}
+
+// IfaceShape is one way a text can sit inside a value that goes through InterfaceMarshalFunc (reflection).
+type IfaceShape struct {
+	Name string
+	Mk   func(txt string) interface{}
+}
+
+type ifaceBody struct {
+	Method string
+	Body   string
+}
+
+// IfaceShapes: the positions a text can take in a reflected value.
+var IfaceShapes = []IfaceShape{
+	{"string", func(t string) interface{} { return t }},
+	{"struct-field", func(t string) interface{} { return ifaceBody{"POST", t} }},
+	{"pointer", func(t string) interface{} { return &ifaceBody{"GET", t} }},
+	{"slice-elem", func(t string) interface{} { return []string{"a", t} }},
+	{"map-key", func(t string) interface{} { return map[string]int{t: 1} }},
+	{"map-value", func(t string) interface{} { return map[string]interface{}{"k": t, "n": []interface{}{t, 1}} }},
+	{"bytes-as-base64", func(t string) interface{} { return [][]byte{[]byte(t)} }},
+}
 
 // MkStringer: a Stringer primitive with the given text
 func MkStringer(s string) Prim { return Prim{"Stringer", stringer{s}} }
